@@ -11,6 +11,7 @@
 package c16
 
 import (
+	"net/netip"
 	"fmt"
 	"sort"
 	"strings"
@@ -26,6 +27,14 @@ import (
 )
 
 var pool = kit.RoutablePool("c16", 3)
+
+// identities whose addresses derive the SAME switch label (last address byte
+// equal modulo 128), and one that derives no label at all (last byte 0 mod 128):
+// the label assignment has to fall back to random labels for them.
+var (
+	collidePool = kit.RoutableWhere("c16-collide", 2, func(a netip.Addr) bool { return a.As16()[15]&0x7f == 0x11 })
+	zeroPool    = kit.RoutableWhere("c16-zero", 1, func(a netip.Addr) bool { return a.As16()[15]&0x7f == 0 })
+)
 
 type wire struct {
 	w      *kit.Wire
@@ -51,13 +60,24 @@ type event struct {
 func (e event) String() string { return fmt.Sprintf("%s(%d,%d)", e.kind, e.a, e.b) }
 
 // build creates n routers; bit i of lite / stub makes router i a lite / stub router.
-func build(n int, lite, stub int) *world {
+func build(n int, lite, stub int, ids string) *world {
 	wd := &world{}
 	for i := 0; i < n; i++ {
 		st := config.Store{}
 		st.Router.Lite = lite&(1<<i) != 0
 		st.Router.Stub = stub&(1<<i) != 0
-		nd, err := kit.NewNode(kit.NodeOpts{Name: fmt.Sprintf("N%d", i), ID: pool[i], Store: st})
+		id := pool[i]
+		switch ids {
+		case "colliding-labels": // N1 and N2 derive the same label
+			if i > 0 {
+				id = collidePool[i-1]
+			}
+		case "no-derived-label": // N1 derives no label
+			if i == 1 {
+				id = zeroPool[0]
+			}
+		}
+		nd, err := kit.NewNode(kit.NodeOpts{Name: fmt.Sprintf("N%d", i), ID: id, Store: st})
 		if err != nil {
 			panic(err)
 		}
@@ -304,6 +324,7 @@ type scenario struct {
 	maxFaults [2]int // close / mgrclose / eof / break events per sequence
 	lite      int    // bit mask of lite routers
 	stub      int    // bit mask of stub routers
+	ids       string // identity family ("" = generic)
 }
 
 func explore(t *testing.T, rep *kit.Report, env kit.Env, sc scenario) {
@@ -332,7 +353,7 @@ func explore(t *testing.T, rep *kit.Report, env kit.Env, sc scenario) {
 			var nextEvents []event
 			var panics []string
 			synctest.Test(t, func(t *testing.T) {
-				wd := build(sc.nodes, sc.lite, sc.stub)
+				wd := build(sc.nodes, sc.lite, sc.stub, sc.ids)
 				var watchers []func() []string
 				for _, n := range wd.nodes {
 					watchers = append(watchers, kit.WatchPanics(n))
@@ -443,12 +464,15 @@ func TestC16(t *testing.T) {
 		"random fallback switch labels are abstracted in the state key (link identity is used instead of the label value)",
 	}
 	scs := []scenario{
-		{"two-routers/single-dial", 2, [][2]int{{0, 1}}, [2]int{9, 11}, [2]int{3000, 40000}, [2]int{3, 4}, 0, 0},
-		{"two-routers/cross-connect", 2, [][2]int{{0, 1}, {1, 0}}, [2]int{11, 13}, [2]int{6000, 100000}, [2]int{2, 3}, 0, 0},
-		{"three-routers/chain-and-cross", 3, [][2]int{{0, 1}, {1, 2}, {2, 1}}, [2]int{11, 13}, [2]int{6000, 100000}, [2]int{1, 2}, 0, 0},
+		{"two-routers/single-dial", 2, [][2]int{{0, 1}}, [2]int{9, 11}, [2]int{3000, 40000}, [2]int{3, 4}, 0, 0, ""},
+		{"two-routers/cross-connect", 2, [][2]int{{0, 1}, {1, 0}}, [2]int{11, 13}, [2]int{6000, 100000}, [2]int{2, 3}, 0, 0, ""},
+		{"three-routers/chain-and-cross", 3, [][2]int{{0, 1}, {1, 2}, {2, 1}}, [2]int{11, 13}, [2]int{6000, 100000}, [2]int{1, 2}, 0, 0, ""},
 		// rarely used router flavours: a lite dialler / a lite listener, a stub router.
-		{"two-routers/single-dial/lite-listener", 2, [][2]int{{0, 1}}, [2]int{9, 11}, [2]int{3000, 40000}, [2]int{3, 4}, 2, 0},
-		{"two-routers/single-dial/lite-dialler+stub-listener", 2, [][2]int{{0, 1}}, [2]int{9, 11}, [2]int{3000, 40000}, [2]int{3, 4}, 1, 2},
+		{"two-routers/single-dial/lite-listener", 2, [][2]int{{0, 1}}, [2]int{9, 11}, [2]int{3000, 40000}, [2]int{3, 4}, 2, 0, ""},
+		{"two-routers/single-dial/lite-dialler+stub-listener", 2, [][2]int{{0, 1}}, [2]int{9, 11}, [2]int{3000, 40000}, [2]int{3, 4}, 1, 2, ""},
+		// label assignment fallbacks: two peers of N0 that derive the same switch label; a peer that derives none.
+		{"three-routers/star/colliding-derived-labels", 3, [][2]int{{1, 0}, {2, 0}}, [2]int{11, 13}, [2]int{6000, 100000}, [2]int{1, 2}, 0, 0, "colliding-labels"},
+		{"two-routers/cross-connect/no-derived-label", 2, [][2]int{{0, 1}, {1, 0}}, [2]int{11, 13}, [2]int{6000, 100000}, [2]int{1, 2}, 0, 0, "no-derived-label"},
 	}
 	for _, sc := range scs {
 		explore(t, rep, env, sc)
